@@ -315,6 +315,51 @@ pub fn run_check(replay: Option<Value>) -> i32 {
         Some(out)
     });
 
+    // far from the time origin, with steps driven down to the spacing of the doubles: every accepted step is a
+    // reported interval (a step that leaves x where it was is not a step)
+    for m in M6 {
+        for (si, x0) in [1e3f64, 1e6, 1.7e9].iter().enumerate() {
+            for backward in [false, true] {
+                let key = format!("far-counts:{}:{}:{}", mname(m), si, backward as u8);
+                if only.as_ref().map(|o| *o != key).unwrap_or(false) {
+                    continue;
+                }
+                let dirn = if backward { -1.0 } else { 1.0 };
+                // y' = y^2 from y = 1: the solution leaves every bound one unit of time later, the steps shrink towards it;
+                // at 1.7e9 a plain decay over a hundred steps of 2e-7 (RK4's default step; the spacing there is 2.4e-7)
+                let blow = si < 2;
+                let p0 = Prob {
+                    name: if blow { "y' = y^2".into() } else { "decay".into() },
+                    n: 1,
+                    f: if blow { Arc::new(|_t, y, d| d[0] = y[0] * y[0]) } else { Arc::new(|_t, y, d| d[0] = -y[0]) },
+                    jac: Some(if blow { Arc::new(|_t, y| vec![2.0 * y[0]]) } else { Arc::new(|_t, _y| vec![-1.0]) }),
+                    flow: None,
+                    y0: vec![1.0],
+                    linear_homogeneous: !blow,
+                };
+                let p = if backward { reflect(&p0) } else { p0 };
+                let span = if blow { 2.0 } else { 2e-5 };
+                let mut c = Cfg::new(m, dirn * x0, dirn * (x0 + span), &p.y0).tol(1e-6, 1e-9);
+                c.user_jac = true;
+                c.max_steps = Some(3000);
+                c.budget = 3_000_000;
+                let r = run(&p, &c);
+                rep.evaluations += 1;
+                rep.transitions += r.st.n_ode;
+                rep.validated += 1;
+                *rep.tags.entry("far-origin-counts".into()).or_insert(0) += 1;
+                if let Some(s) = r.sol() {
+                    let strictly = s.t.windows(2).all(|w| (w[1] - w[0]) * dirn > 0.0);
+                    if s.naccpt != s.t.len().saturating_sub(1) || !strictly {
+                        rep.violations.push(
+                            Violation::new(&key, "naccpt", format!("{} on {} from {:e}: {:?} with naccpt={} and {} reported intervals{}", mname(m), p.name, dirn * x0, s.status, s.naccpt, s.t.len().saturating_sub(1), if strictly { "" } else { " (samples not strictly ordered)" }), json!({"key": key}))
+                                .with("method", mname(m)),
+                        );
+                    }
+                }
+            }
+        }
+    }
     if only.is_none() {
         rep.violations.extend(regress::violations_for("C18"));
         rep.require("with-rejections", 1);
